@@ -13,6 +13,7 @@ TC = {"budget": "40m", "timeout": 4000, "max-paths": 1500000}
 
 TSTATE_BOUNDS = "one checkOnce from a fresh T; property = any program of k<=3 (quick) / 4 (thorough) opcodes over {return, draw, Errorf, Fail, Fatalf, FailNow, panic(string), panic(error), nil dereference, Skip, Cleanup(sub), Context, Custom(sub)} with a 2-opcode sub-program for callbacks; buffer stream of 4 symbolic words"
 TSTATE_REACH = ["passed", "signalled", "skipped", "overrun"]
+C10_REACH = TSTATE_REACH + ["custom-retried"]
 ENGINE_ASSUME = ["sync.RWMutex/Mutex/Once, atomic.Bool/Value modelled as sequential state machines that report misuse (deadlock, unlock of unlocked)",
                  "runtime.Callers/CallersFrames modelled by the executor's own call stack with Go's run-time function naming",
                  "fmt/log/strings formatting executed natively on concrete arguments"]
@@ -55,6 +56,7 @@ PROPS = {
             H("H_C12_monotone", "all 12 kinds, any recording, bias word / data word lowered to any smaller value (64-bit symbolic)", reach=["compared"], quick=Q, thorough=T),
             H("H_C12_shape", "all 12 kinds on the real PRNG-backed recording stream with arbitrary PRNG output: overflow draws record all-ones; for every kind the solver synthesises a non-overflow bias word that keeps the extreme value (escape witness)", reach=["prng-overflow", "prng-plain"], must_reach=["escape-" + k for k in ["Int8", "Int16", "Int32", "Int64", "Int", "Uint8", "Uint16", "Uint32", "Uint64", "Uint", "Byte", "Uintptr"]], quick=Q, thorough=T, nodiff=True, search=["seed"]),
             H("H_C12_minimizeExact", "real minimize(u, cond): all u < 2^6 (quick) / 2^9 (thorough), every threshold condition x>=theta, and the never-true condition", reach=["threshold", "nothing-accepted"], quick=Q, thorough=T),
+            H("H_C05_accept", "completeness of accept (see C05 for the bounds): a strictly smaller candidate that fails at the same site is always taken, whatever its message", reach=["accepted", "rejected"], quick=Q, thorough=T),
             H("H_C12_binSearchInduct", "the binary search of the real minimizer at full 64-bit width by one inductive step (loop cut-point): any best, any threshold, any loop state inside the invariant i <= threshold <= j == best; variant j-i; exit => best == threshold", reach=["iterated", "returned", "loop-back-edge"], quick=Q, thorough=T, search=["best", "theta"], search_any=True),
             H("H_C12_binSearchStep", "minimizer.accept and the first probe of binSearch for all 64-bit best/u and both condition outcomes", reach=["accepted", "rejected", "probe"], quick=Q, thorough=T),
             H("H_C12_offers", "real shrink() on a 3-word recording in 2 standalone groups, words from 10 representatives (0,1,5,6,7,1000,2^53-1,2^63,2^64-2,2^64-1), property reproduced by no candidate; then a second shrink() of a neighbouring test case in the same process", reach=["first-run", "second-run"], quick=Q, thorough=T),
@@ -75,7 +77,7 @@ PROPS = {
             H("H_C15_shared", "18 generator families (integer, slice, Deferred, self-recursive Deferred, Custom, Filter, Map, SampledFrom, OneOf, Ptr, MapOf, Permutation, String over the package-level rune generator, RuneFrom on a shared range table, regexp character-class caches, AsAny, Float64Range, Deferred nested in a slice); one shared instance, 2 goroutines with their own T and bitstream, 2 operations each from {Draw, String, use as sub-generator of a locally built SliceOfN} (solver-chosen), compared with the same operations on private instances; <=1 (quick) / <=2 (thorough) preemptions", reach=["compared", "value"], quick=Q, thorough=TC, race=True, nodiff=True),
             H("H_C15_three", "the same families, 3 goroutines with one operation each; <=1 preemption", reach=["compared", "value"], quick=Q, thorough=T, race=True, nodiff=True),
         ],
-        "assumptions": ENGINE_ASSUME + CONC_ASSUME + ["bitstreams are two fixed 24-word buffers (the claim is about schedules and generator families, not about data)",
+        "assumptions": ENGINE_ASSUME + CONC_ASSUME + ["bitstreams are three fixed 24-word buffers, all goroutines of a scenario reading equal private copies; the families touching package-level state are run with all three, the others with the first (the claim is about schedules and generator families, not about data: arms of a generator that these streams do not reach are not exercised)",
                                                         "Make (reflection) and the regexp engine (StringMatching/SliceOfBytesMatching values, compileRegexp) are outside the claim; the regexp caches are exercised through charClassGen/regexpName/expandRangeTable",
                                                         "user callbacks (Custom/Filter/Map functions) are harness functions without shared state"],
     },
@@ -96,8 +98,7 @@ PROPS = {
             H("H_C18_reachInt", "the same through Int64Range: all min<=v<=max (64-bit symbolic), sign coin 0 / all-ones, magnitude span of bit length B", must_reach=WITNESSES, unreach_job=_band_job, reach=["negative", "non-negative"], quick=Q, thorough=T, nodiff=True),
             H("H_C18_edges", "forcing regions for Uint64Range, all min and all spans of every bit length 1..64: bias word below Tlo (and an even data word) forces min, bias word above Thi forces max; both regions have measure >= 2^-8 (computed in the harness from the documented bias schedule, slack 2^30)", reach=["min-forced", "max-forced"], quick=Q, thorough=T),
             H("H_C18_fresh", "baseSeed() without -rapid.seed is the environment's entropy (two calls can differ, not a constant); seeds of test cases i<j<40 of one run differ for every base seed", reach=["two-calls-can-differ", "not-a-constant", "distinct"], quick=Q, thorough=T, nodiff=True),
-            H("H_C18_freshChecks", "two real checkTB runs under one test name in one process, no -rapid.seed, entropy source symbolic: the solver must find an environment in which the first test cases differ", must_reach=["two-checks-can-differ", "not-a-constant"], unreach_job=lambda label: {"harness": "H_C18_nativeFresh", "vals": {}}, quick=Q, thorough=T, nodiff=True),
-            H("H_C18_nativeFresh", "native-only confirmation (4 pairs of real Check runs), no-op under gosym", quick=Q, thorough=T, nodiff=True),
+            H("H_C18_freshChecks", "two real checkTB runs under one test name in one process, no -rapid.seed; environment symbolic under its contracts (entropy values pairwise distinct, clock non-decreasing with equal readings allowed, pid constant): the seeds of the two runs differ for every such environment", reach=["compared", "not-a-constant"], quick=Q, thorough=T, nodiff=True),
             H("H_C18_nativeBand", "native-only confirmation sweep (400000 draws), no-op under gosym", quick=Q, thorough=T, nodiff=True),
         ],
         "assumptions": ENGINE_ASSUME + ["genGeom summarised as a monotone step function (see C03)", "probability statements are reduced to a solver-proved forcing region plus its exactly computed measure under uniform words",
@@ -145,7 +146,8 @@ PROPS = {
         "harnesses": [
             H("H_C07_seedSchedule", "real findBug with symbolic 64-bit base seed, N=2 (quick) / 3 (thorough); property = data-dependent pass/skip/fail on the first PRNG word; then a second findBug run from the reported seed", reach=["failed", "no-failure"], quick=Q, thorough=T, search=["seed"]),
             H("H_C09_findBugStep", "seed schedule step for every position in a run of any length, see C09", reach=["iterated", "failed"], quick=Q, thorough=T),
-            H("H_C07_plumbing", "real checkTB with symbolic non-zero -rapid.seed, checks=1, nofailfile, shrinktime 0", reach=["failed", "not-failed"], quick=Q, thorough=T, search=["flagseed"]),
+            H("H_C07_streamState", "ONE iteration of the real findBug loop from an arbitrary carried-over state of the reused stream and T (loop cut-point; recorder length < 2^40, draw counter any): a failing test case is regenerated, value by value, by a fresh stream with the reported seed (property draws a SliceOfN(Bool,0,2) and a raw word)", reach=["iterated", "failed", "loop-back-edge"], quick=Q, thorough=T, nodiff=True),
+            H("H_C07_plumbing", "real checkTB with symbolic non-zero -rapid.seed after 0..2 earlier base-seed requests in the process, two consecutive Checks, checks=1, nofailfile, shrinktime 0", reach=["failed", "not-failed"], quick=Q, thorough=T, search=["flagseed"]),
             H("H_C07_determinism", "two runs of the real doCheck (checks=2, shrinktime 0) from one symbolic seed, compared invocation by invocation", reach=["failed", "passed"], quick=Q, thorough=T, search=["seed"]),
         ],
         "assumptions": ENGINE_ASSUME + ["jsf64 with a symbolic seed is abstracted to an arbitrary word sequence that is a function of the seed expression (same seed, same words); with concrete state the real jsf64 code runs",
@@ -161,7 +163,7 @@ PROPS = {
     },
     "C04": {
         "level": "model_checking",
-        "harnesses": PRUNE + PRUNE_MORE,
+        "harnesses": PRUNE + PRUNE_MORE + [H("H_C07_plumbing", "same seed, same test cases, whatever ran earlier in the process: see C07", reach=["failed", "not-failed"], quick=Q, thorough=T, search=["flagseed"])],
         "assumptions": ENGINE_ASSUME + ["the comparison float64(u)*2^-53 >= c of flipBiasedCoin is rewritten exactly to u >= ceil(c*2^53) (u < 2^53: conversion and scaling are exact)"],
     },
     "C05": {
@@ -199,12 +201,13 @@ PROPS = {
     },
     "C10": {
         "level": "model_checking",
-        "harnesses": [H("H_C10_checkOnce", TSTATE_BOUNDS, reach=TSTATE_REACH, quick=Q, thorough=T)],
+        "harnesses": [H("H_C10_checkOnce", TSTATE_BOUNDS + "; every call of a Custom generator function, retries included, is an invocation of its own", reach=C10_REACH, quick=Q, thorough=T)],
         "assumptions": ENGINE_ASSUME,
     },
     "C11": {
         "level": "model_checking",
-        "harnesses": [H("H_C11_checkOnce", TSTATE_BOUNDS, reach=TSTATE_REACH, quick=Q, thorough=T)],
+        "harnesses": [H("H_C11_checkOnce", TSTATE_BOUNDS, reach=TSTATE_REACH, quick=Q, thorough=T),
+                      H("H_C11_twoCases", "two test cases in a row: the first any program of 2 opcodes (+2-opcode callbacks) over the same alphabet on 4 symbolic words, the second a fixed benign case using draws, a Custom generator, the context and cleanups - on the same T when it is reused, on a fresh one otherwise; the second must pass (state outside the T - pools, package variables - included)", reach=["first-failed", "first-reusable"], quick=Q, thorough=T)],
         "assumptions": ENGINE_ASSUME,
     },
     "C03": {
